@@ -568,6 +568,16 @@ func runStoreBehaviourHooked(w *tr.Writer, b storeBehaviour, seed int64, scratch
 				rd("latest", nm, "latest")
 			}
 			ev["reads"] = reads
+			// the pseudo-id "latest" names a message only when one is fetched: marking or removing "latest" (and the empty
+			// id) names nothing
+			pseudo := []tr.Ev{}
+			for _, nm := range b.Names {
+				for _, id := range []string{"latest", ""} {
+					pseudo = append(pseudo, tr.Ev{"k": "seen", "mb": nm, "id": id, "r": errClass(st.MarkSeen(nm, id))})
+					pseudo = append(pseudo, tr.Ev{"k": "remove", "mb": nm, "id": id, "r": errClass(st.RemoveMessage(nm, id))})
+				}
+			}
+			ev["pseudo"] = pseudo
 			lists := [][]tr.Msg{}
 			err := st.VisitMailboxes(func(ms []storage.Message) bool {
 				if len(ms) > 0 {
